@@ -12,7 +12,172 @@ pub struct Shortcuts {
 }
 
 pub fn parts() -> Vec<Box<dyn Part>> {
-    vec![Box::new(Shortcuts { opts: GenOpts { allow_repeat: false, allow_generics: true, ..GenOpts::default() } })]
+    vec![Box::new(Shortcuts { opts: GenOpts { allow_repeat: false, allow_generics: true, ..GenOpts::default() } }), Box::new(ShortcutsLattice)]
+}
+
+/// Part `shortcuts-lattice` (seeded change C12-10): the same rewrite, at token level, over the instruction-selection lattice of
+/// C16 / C17, most of whose inputs are *rejected* - a shortcut and its written-out basics must also be rejected alike.
+pub struct ShortcutsLattice;
+
+fn basics_any(name: &str) -> Option<Vec<String>> {
+    match name {
+        "ghost" => Some(vec!["ghost_owned".into(), "ghost_ref".into()]),
+        "ghosts" => Some(vec!["ghosts_owned".into(), "ghosts_ref".into()]),
+        n => basics_of(n),
+    }
+}
+
+/// `[name]` / `[name(args)]` -> one bracket content per basic instruction (None: not a shortcut, left as it is).
+fn split_attr(g: &proc_macro2::Group, n: &mut usize) -> Option<Vec<proc_macro2::TokenStream>> {
+    use proc_macro2::{Delimiter, TokenStream, TokenTree};
+    let toks: Vec<TokenTree> = g.stream().into_iter().collect();
+    let (name, args) = match toks.as_slice() {
+        [TokenTree::Ident(i)] => (i.clone(), None),
+        [TokenTree::Ident(i), TokenTree::Group(a)] if a.delimiter() == Delimiter::Parenthesis => (i.clone(), Some(a.clone())),
+        _ => return None,
+    };
+    if name == "parent" {
+        let a = args?;
+        let before = *n;
+        let inner = rewrite_tokens(a.stream(), n, true);
+        if *n == before {
+            return None;
+        }
+        let mut ts = TokenStream::new();
+        ts.extend([TokenTree::Ident(name), TokenTree::Group(proc_macro2::Group::new(Delimiter::Parenthesis, inner))]);
+        return Some(vec![ts]);
+    }
+    let bs = basics_any(&name.to_string())?;
+    *n += 1;
+    Some(
+        bs.into_iter()
+            .map(|b| {
+                let mut ts = TokenStream::new();
+                ts.extend([TokenTree::Ident(proc_macro2::Ident::new(&b, name.span()))]);
+                if let Some(a) = &args {
+                    ts.extend([TokenTree::Group(a.clone())]);
+                }
+                ts
+            })
+            .collect(),
+    )
+}
+
+/// Rewrite every `#[shortcut(..)]` attribute (and every `[shortcut(..)]` inside the arguments of a `#[parent(..)]`) in a token stream.
+pub fn rewrite_tokens(ts: proc_macro2::TokenStream, n: &mut usize, in_parent: bool) -> proc_macro2::TokenStream {
+    use proc_macro2::{Delimiter, Group, TokenStream, TokenTree};
+    let toks: Vec<TokenTree> = ts.into_iter().collect();
+    let mut out: Vec<TokenTree> = vec![];
+    let mut i = 0;
+    while i < toks.len() {
+        match &toks[i] {
+            TokenTree::Punct(p) if p.as_char() == '#' && i + 1 < toks.len() && matches!(&toks[i + 1], TokenTree::Group(g) if g.delimiter() == Delimiter::Bracket) => {
+                if let TokenTree::Group(g) = &toks[i + 1] {
+                    match split_attr(g, n) {
+                        Some(list) => {
+                            for a in list {
+                                out.push(toks[i].clone());
+                                out.push(TokenTree::Group(Group::new(Delimiter::Bracket, a)));
+                            }
+                        }
+                        None => {
+                            out.push(toks[i].clone());
+                            out.push(toks[i + 1].clone());
+                        }
+                    }
+                }
+                i += 2;
+            }
+            TokenTree::Group(g) if in_parent && g.delimiter() == Delimiter::Bracket => {
+                match split_attr(g, n) {
+                    Some(list) => {
+                        for a in list {
+                            out.push(TokenTree::Group(Group::new(Delimiter::Bracket, a)));
+                        }
+                    }
+                    None => out.push(toks[i].clone()),
+                }
+                i += 1;
+            }
+            TokenTree::Group(g) => {
+                out.push(TokenTree::Group(Group::new(g.delimiter(), rewrite_tokens(g.stream(), n, in_parent))));
+                i += 1;
+            }
+            other => {
+                out.push(other.clone());
+                i += 1;
+            }
+        }
+    }
+    let mut r = TokenStream::new();
+    r.extend(out);
+    r
+}
+
+impl Part for ShortcutsLattice {
+    fn name(&self) -> &'static str {
+        "shortcuts-lattice"
+    }
+    fn prop(&self) -> &'static str {
+        "C12"
+    }
+    fn rule(&self) -> String {
+        "The instruction-selection lattice of C16 (1-2 trait instructions of any spelling and hint, members with 0-3 instructions incl. ghost / child / parent / as_type, struct- and variant-level ghosts of every entry form; mostly *rejected* inputs, no trait-level repeat()). Oracle: a token-level rewrite replaces every #[shortcut(args)] attribute (trait level, member level, ghost, ghosts, and [shortcut(..)] inside #[parent(..)]) by one attribute per basic instruction the README tabulates, same arguments; the two inputs must be accepted or rejected alike and, when accepted, give equal multisets of impl items (diagnostic texts are not compared). Non-trivial = >= 1 shortcut rewritten; distinct by input text.".into()
+    }
+    fn cases(&self, tier: Tier) -> usize {
+        match tier {
+            Tier::Quick => 72_000,
+            Tier::Thorough => 1_200_000,
+        }
+    }
+    fn max_tape(&self) -> usize {
+        160
+    }
+    fn run_case(&self, tape: &[u16], ctx: &Ctx) -> CaseReport {
+        let mut t = Tape::new(tape);
+        let (text, mut labels) = crate::props::c16::gen_lattice(&mut t);
+        let ts: proc_macro2::TokenStream = match text.parse() {
+            Ok(ts) => ts,
+            Err(_) => return CaseReport { key: text, nontrivial: false, labels, verdict: Verdict::Discard("input does not lex".into()) },
+        };
+        let mut n = 0;
+        let etext = rewrite_tokens(ts, &mut n, false).to_string();
+        labels.push(format!("shortcuts-rewritten:{}", n.min(9)));
+        if n == 0 {
+            return CaseReport { key: text, nontrivial: false, labels, verdict: Verdict::Pass };
+        }
+        let a = expand_items(&text);
+        let b = expand_items(&etext);
+        let detail = |why: &str| json!({"input": text, "written_out": etext, "why": why});
+        let verdict = match (&a, &b) {
+            (Exp::Ok { items: ia, .. }, Exp::Ok { items: ib, .. }) => {
+                labels.push("accepted".into());
+                match multiset_diff(&item_multiset(ia), &item_multiset(ib)) {
+                    None => Verdict::Pass,
+                    Some((oa, ob)) => ctx.fail_or_known("C12", None, "shortcut form and written-out basic form generate different impls".into(), json!({"input": text, "written_out": etext, "only_shortcut_form": oa, "only_written_out": ob})),
+                }
+            }
+            (Exp::Other(oa), Exp::Other(ob)) => {
+                labels.push(format!("both:{}", oa.kind()));
+                if oa.kind() == ob.kind() {
+                    Verdict::Pass
+                } else {
+                    ctx.fail_or_known("C12", Some("panic-is-C16"), format!("shortcut form: {}; written-out form: {}", oa.short(), ob.short()), detail("outcome kinds differ"))
+                }
+            }
+            (Exp::Unsplittable(_), Exp::Unsplittable(_)) => Verdict::Pass,
+            (x, y) => {
+                let k = |e: &Exp| match e {
+                    Exp::Ok { .. } => "accepted".to_string(),
+                    Exp::Other(o) => o.short(),
+                    Exp::Unsplittable(_) => "accepted (unsplittable)".to_string(),
+                };
+                let panic = matches!(x, Exp::Other(crate::xp::Outcome::Panic(_))) || matches!(y, Exp::Other(crate::xp::Outcome::Panic(_)));
+                ctx.fail_or_known("C12", if panic { Some("panic-is-C16") } else { None }, format!("shortcut form is {}, written-out basic form is {}", k(x), k(y)), detail("verdicts differ"))
+            }
+        };
+        CaseReport { key: text, nontrivial: true, labels, verdict }
+    }
 }
 
 /// README table: shortcut name -> the basic names it abbreviates (same fallibility).
